@@ -51,7 +51,7 @@ theorem stale_copy_never_visible (h : List Task) (k0 : String) (rest : List Stri
       rw [ht'] at this; exact (Option.some.inj this).symm
     -- ver out(q) ≤ ver in(q') < ver out(q') ≤ ver in(i) = ver out(q)
     have h1 := g.domIn q' rq' hrq' q ((tie.anc q' rq' hrq' q).mpr haq) rq hrq
-    have h2 : ver rq'.inb.vers (keyOf k0 rest) < ver rq'.out.vers (keyOf k0 rest) := by
+    have h2 : ver rq'.inb.vers (keyOf (esc k0) rest) < ver rq'.out.vers (keyOf (esc k0) rest) := by
       rw [g.outOfIn q' rq' hrq']
       exact (outbound_at_path k0 rest _ _ (g.stable q' rq' hrq') (g.shapeIn q' rq' hrq')).2.2.2
         (by rw [htask]; exact hp')
@@ -76,7 +76,7 @@ theorem latest_publisher_visible (h : List Task) (k0 : String) (rest : List Stri
   have htask : rqs.task = ts := by
     have := tie.task qs rqs hrqs
     rw [hts] at this; exact (Option.some.inj this).symm
-  have hpos : 0 < ver rqs.out.vers (keyOf k0 rest) := by
+  have hpos : 0 < ver rqs.out.vers (keyOf (esc k0) rest) := by
     rw [g.outOfIn qs rqs hrqs]
     have := (outbound_at_path k0 rest _ _ (g.stable qs rqs hrqs) (g.shapeIn qs rqs hrqs)).2.2.2
       (by rw [htask]; exact hp)
